@@ -32,6 +32,9 @@ type FuncResult struct {
 
 type vacProbe struct {
 	name, text, problem string
+	// pairBefore: when set, the probe only counts if THIS text (the path before the assumption) is
+	// satisfiable — an infeasible path makes the assumption irrelevant, not contradictory
+	pairBefore string
 }
 
 func (v *Verifier) verifyFunc(fn *ssa.Function, fc *FuncContract) (res *FuncResult) {
@@ -209,9 +212,13 @@ func (v *Verifier) verifyFunc(fn *ssa.Function, fc *FuncContract) (res *FuncResu
 	res.Obls = c.obls
 	// vacuity probes (sat expected): preconditions consistent; exit reachable
 	if !v.Opts.NoVacuity {
-		res.probes = append(res.probes, vacProbe{"vac.pre", c.buildSatProbe(nEntryFacts, ""), "preconditions and axioms are contradictory"})
+		res.probes = append(res.probes, vacProbe{name: "vac.pre", text: c.buildSatProbe(nEntryFacts, ""), problem: "preconditions and axioms are contradictory"})
 		if len(fr.rets) > 0 {
-			res.probes = append(res.probes, vacProbe{"vac.exit", c.buildSatProbe(len(c.facts), exitReach.S), "no normal return is reachable under the assumptions (all postconditions vacuous)"})
+			res.probes = append(res.probes, vacProbe{name: "vac.exit", text: c.buildSatProbe(len(c.facts), exitReach.S), problem: "no normal return is reachable under the assumptions (all postconditions vacuous)"})
+		}
+		for i, ap := range c.assumeProbes {
+			res.probes = append(res.probes, vacProbe{name: fmt.Sprintf("vac.assume%d", i), text: c.buildSatProbe(ap.nAfter, ap.reach),
+				problem: "explicit assumption contradicts the path it is attached to (everything after it is vacuous): " + ap.src, pairBefore: c.buildSatProbe(ap.nBefore, ap.reach)})
 		}
 	}
 	return res
@@ -419,9 +426,14 @@ func (v *Verifier) solveAll(results []*FuncResult) {
 				defer func() { <-sem }()
 				q := &Query{Name: sanitize(shortKey(r.Key)) + "." + p.name, Text: p.text}
 				sr := solve(q, v.Opts.WorkDir, 5, v.Opts.Solvers)
+				bad := sr.Verdict == "unsat"
+				if bad && p.pairBefore != "" {
+					qb := &Query{Name: sanitize(shortKey(r.Key)) + "." + p.name + ".before", Text: p.pairBefore}
+					bad = solve(qb, v.Opts.WorkDir, 5, v.Opts.Solvers).Verdict == "sat"
+				}
 				mu.Lock()
 				r.VacuityN++
-				if sr.Verdict == "unsat" {
+				if bad {
 					r.Vacuity = append(r.Vacuity, p.problem)
 				}
 				mu.Unlock()
